@@ -781,9 +781,13 @@ func (c *Connection) write(ctx context.Context, msg Message) error {
 		}
 		err = s.shuttingDown(ErrServerClosing)
 	})
-	if err == nil {
-		err = c.writer.Write(ctx, msg)
+	if err != nil {
+		// Refused here, because the connection is shutting down: that says
+		// nothing about the writer, which may still be needed for the responses
+		// of the handlers that a graceful Close is waiting for.
+		return err
 	}
+	err = c.writer.Write(ctx, msg)
 
 	// For cancelled or rejected requests, we don't set the writeErr (which would
 	// break the connection). They can just be returned to the caller.
